@@ -33,7 +33,10 @@ func (e *vhWalletEnv) walletValue() v.Z {
 	return s
 }
 
-type vhLedger struct{ wallet0, spent0, issued0 v.Z }
+type vhLedger struct {
+	wallet0, spent0, issued0 v.Z
+	surplus0                 uint64
+}
 
 func (e *vhWalletEnv) mintSpentValue() v.Z {
 	s := v.ZU(0)
@@ -51,7 +54,7 @@ func (e *vhWalletEnv) mintIssuedValue() v.Z {
 }
 
 func (e *vhWalletEnv) snapshot() vhLedger {
-	return vhLedger{wallet0: e.walletValue(), spent0: e.mintSpentValue(), issued0: e.mintIssuedValue()}
+	return vhLedger{wallet0: e.walletValue(), spent0: e.mintSpentValue(), issued0: e.mintIssuedValue(), surplus0: e.mint.Surplus}
 }
 
 // C17: against an honest mint no value is lost and nothing is counted twice:
@@ -60,6 +63,7 @@ func (e *vhWalletEnv) checkConservation(l vhLedger, what string) {
 	lhs := v.ZAdd(e.walletValue(), v.ZSub(e.mintSpentValue(), l.spent0))
 	rhs := v.ZAdd(l.wallet0, v.ZSub(e.mintIssuedValue(), l.issued0))
 	v.Assert(v.ZEq(lhs, rhs), "C17 "+what+": spendable + pending value changes exactly by what the mint issued minus what it consumed (no value lost or invented)")
+	v.Assert(e.mint.Surplus == l.surplus0, "C17 "+what+": every swap pays the mint exactly its input fee - inputs = outputs + fee, nothing is left behind at the mint")
 	ok := true
 	all := []string{}
 	for _, p := range e.db.proofs {
@@ -339,6 +343,16 @@ func vhRestore(nb int, dense bool) {
 			expected = v.ZAdd(expected, v.ZU(2))
 		}
 	}
+	// ... and, before it rotated, possibly the first output of the keyset that is inactive now
+	inactiveSigned := v.Int("inactive.signed", 0, 1) == 1
+	if inactiveSigned {
+		act := env.mint.Active
+		env.mint.Active = vhKsIds[1]
+		_, ok := env.mint.sign(cashu.BlindedMessages{{Amount: 4, Id: vhKsIds[1], B_: vhExpectedB(master, vhKsIds[1], 0)}})
+		env.mint.Active = act
+		v.Assume(ok)
+		expected = v.ZAdd(expected, v.ZU(4))
+	}
 	var path string
 	if v.Native() {
 		path = v.TempDir()
@@ -364,6 +378,10 @@ func vhRestore(nb int, dense bool) {
 	if last >= 0 {
 		v.Assert(ctr > uint32(100*last), "C19 the counter written back by restore is past every signed counter")
 		v.Assert(ctr/100 <= uint32(last+3), "C19 the counter written back by restore leaves no run of three empty batches before it (a second restore of the continued wallet finds its new outputs)")
+	}
+	ictr := db.GetKeysetCounter(vhKsIds[1])
+	if inactiveSigned {
+		v.Assert(v.And(ictr > 0, ictr/100 <= 3), "C19 restore writes back a counter past the signed outputs of every keyset it scanned (the inactive one too), without a gap of three batches")
 	}
 	db.Close()
 	v.Reach("restored")
